@@ -3,6 +3,7 @@ package main
 import (
 	"encoding/json"
 	"fmt"
+	"math"
 	"strings"
 
 	stackage "github.com/JesseCoretta/go-stackage"
@@ -321,6 +322,23 @@ func c19Run(c *Ctx, cs c19Case, count bool) {
 		cd := CondAlias(stackage.Cond("kw", stackage.Eq, StackAlias(target)))
 		recv = stackage.And().Push(stackage.List().Push("z"), cd, sibling)
 		parentWant = contents(recv)
+	case "in-cond-late-pointer": // the Condition was given a pointer to a Stack variable that was filled in afterwards
+		late := new(stackage.Stack)
+		cd := stackage.Cond("kw", stackage.Eq, late)
+		recv = stackage.And().Push(stackage.List().Push("z"), cd)
+		*late = target
+		parentWant = contents(recv)
+	case "late-pointer": // ... and the same for a pointer stored as an element
+		late := new(stackage.Stack)
+		recv = stackage.And().Push("p0", late, stackage.Cond("k2", stackage.Eq, "v"))
+		*late = target
+		parentWant = contents(recv)
+	case "late-pointer-alias":
+		late := new(StackAlias)
+		cd := stackage.Cond("kw", stackage.Eq, late)
+		recv = stackage.Or().Push("p0", cd)
+		*late = StackAlias(target)
+		parentWant = contents(recv)
 	case "deep":
 		mid := stackage.Or().Push("m0", target)
 		recv = stackage.And().Push(mid, "p1")
@@ -566,6 +584,33 @@ func c19Cases(c *Ctx) []c19Case {
 				}
 				out = append(out, c19Case{Len: n, Mask: mask, Place: pl, Kind: "AND", Log: true})
 			}
+		}
+	}
+	// pointers that were empty when they were stored
+	for n := 1; n <= 6; n++ {
+		for mask := 0; mask < 1<<n; mask++ {
+			if n > nestLen {
+				continue
+			}
+			for _, pl := range []string{"in-cond-late-pointer", "late-pointer", "late-pointer-alias"} {
+				out = append(out, c19Case{Len: n, Mask: mask, Place: pl, Kind: "AND"})
+			}
+		}
+	}
+	for _, pl := range []string{"in-cond-late-pointer", "late-pointer", "late-pointer-alias"} {
+		out = append(out, c19Case{Place: pl, Kind: "AND", Long: "1,1x0,1,1x0,1,1x0,1,1x0,1,1x0,1"}, c19Case{Place: pl, Kind: "LIST", Long: "1,5x0,1"})
+	}
+	// scan limits nobody would call small: "no limit" written as the largest int, and its neighbours
+	for _, lim := range []int{math.MaxInt, math.MaxInt - 1, math.MaxInt / 2, 1 << 40, 100} {
+		for _, long := range []string{"1,1x0,1,1x0,1,1x0,1,1x0,1,1x0,1", "1,5x0,1", "2x1,5x0,9x1", "1,1x0,1", "3x0,1,2x0,1"} {
+			for _, pl := range []string{"top", "in-stack", "in-cond"} {
+				out = append(out, c19Case{Place: pl, Kind: "AND", Long: long, Limit: lim}, c19Case{Place: pl, Kind: "LIST", Long: long, Limit: lim, Neg: true, Fwd: true})
+			}
+		}
+	}
+	for n := 1; n <= 5; n++ {
+		for mask := 0; mask < 1<<n; mask++ {
+			out = append(out, c19Case{Len: n, Mask: mask, Place: "top", Kind: "OR", Limit: math.MaxInt}, c19Case{Len: n, Mask: mask, Place: "in-stack", Kind: "OR", Limit: math.MaxInt - 1})
 		}
 	}
 	// a validity closure on the stack that is compacted, unhappy for as long as there are nil elements
